@@ -1,7 +1,14 @@
 /-
   C03 — obligations tying the REGENERATED facts (Generated/C03.lean, rewritten from the Go source on every run) to the
-  hand-written model. A source change that moves the collection in front of the executed test, drops the error
-  return, tests the wrong slice for emptiness or alters the executable-status predicate makes one of these fail.
+  hand-written model.
+
+  Every fact is an `Option`: `none` means the translator could not locate the anchor in the current source in a shape it
+  understands (a helper was extracted, a loop restructured, …); the obligation is then vacuous, bin/check prints
+  `T-TIE-UNAVAILABLE` and the correspondence ops (sub / evm / btc / hist / tick / watch / sigwatch / submit …) carry the
+  clause alone. A fact that IS located must satisfy its obligation, which is stated semantically: the extractor locates
+  anchors by shape (not by the names of locals, receivers or unexported helpers) and normalises equivalent spellings
+  (`if x { continue }; append` and `if !x { append }`; `if` chain and `switch`; range and indexed loop; operand order),
+  and the translated decisions are compared with the model's as functions, not as text.
 -/
 import SygmaModel.Model.C03
 import SygmaModel.Generated.C03
@@ -12,32 +19,66 @@ def statusCode : Status → Nat
 
 /-- Substrate: lookup, error return, skip-if-executed, and only then the collection into the signed slice
     (model: `subLoop`) -/
-theorem gen_sub_order :
-    Generated.C03.subOrder = ["lookup", "err-return", "skip-executed", "append:transferProposals"] := by decide
+theorem gen_sub_filter :
+    ∀ o, Generated.C03.subFilter = some o → o = ["lookup", "err-return", "skip-executed", "append"] := by
+  intro o ho
+  unfold Generated.C03.subFilter at ho
+  cases ho
+  all_goals decide
 
-/-- Substrate: "nothing to sign" is decided on the collected slice (model: `sub`, case `some []`) -/
-theorem gen_sub_empty_test : Generated.C03.subEmptyTest = "len(transferProposals) == 0" := by decide
+/-- Substrate: "nothing to sign" is decided on the COLLECTED slice being empty (model: `sub`, case `some []`),
+    whatever other slices look like -/
+theorem gen_sub_empty_test :
+    ∀ f, Generated.C03.subEmptyTest = some f → ∀ n other, (f n other = true ↔ n = 0) := by
+  intro f hf
+  unfold Generated.C03.subEmptyTest at hf
+  cases hf
+  all_goals (intro n other; first | (simp; done) | (simp; omega) | omega)
 
-/-- EVM: same order in `proposalBatches` (model: `evm` = filter, then `C14.pack`) -/
-theorem gen_evm_order :
-    Generated.C03.evmOrder = ["lookup", "err-return", "skip-executed", "append:currentBatch.proposals"] := by decide
+/-- EVM: same order in the batching function (model: `evm` = filter, then `C14.pack`) -/
+theorem gen_evm_filter :
+    ∀ o, Generated.C03.evmFilter = some o → o = ["lookup", "err-return", "skip-executed", "append"] := by
+  intro o ho
+  unfold Generated.C03.evmFilter at ho
+  cases ho
+  all_goals decide
 
-/-- EVM / Substrate `Execute`: the proposals handed to hashing (signed) and to watchExecution (submitted) are the
-    same variable (model: `submitted`) -/
-theorem gen_signed_is_submitted :
-    Generated.C03.evmHashArg = Generated.C03.evmWatchArg ++ ".proposals" ∧ Generated.C03.evmWatchArg ≠ "" ∧
-    Generated.C03.subHashArg = Generated.C03.subWatchArg ∧ Generated.C03.subWatchArg ≠ "" := by decide
+/-- EVM / Substrate `Execute`: the proposals handed to hashing (signed) are those of the batch handed to the watch
+    loop (submitted) (model: `submitted`) -/
+theorem gen_signed_is_submitted_evm : ∀ b, Generated.C03.evmSignedIsSubmitted = some b → b = true := by
+  intro b hb; unfold Generated.C03.evmSignedIsSubmitted at hb; cases hb; all_goals rfl
+
+theorem gen_signed_is_submitted_sub : ∀ b, Generated.C03.subSignedIsSubmitted = some b → b = true := by
+  intro b hb; unfold Generated.C03.subSignedIsSubmitted at hb; cases hb; all_goals rfl
 
 /-- the periodic executed-check sweeps the WHOLE slice it is given, a member that errs or is not executed answers
-    "not yet", and the watch loop hands it the session's whole batch (model: `allExecuted` over every member) -/
-theorem gen_tick_whole_batch :
-    Generated.C03.evmTickRange = "proposals" ∧ Generated.C03.subTickRange = "proposals" ∧
-    Generated.C03.evmTickMemberTest = "err != nil || !isExecuted => { return false }" ∧
-    Generated.C03.subTickMemberTest = "err != nil || !isExecuted => { return false }" ∧
-    Generated.C03.evmTickArg = "batch.proposals" ∧ Generated.C03.subTickArg = "proposals" := by decide
+    "not yet" (model: `allExecuted`), and the watch loop hands it the session's whole batch -/
+theorem gen_tick_evm :
+    (∀ b, Generated.C03.evmTickWhole = some b → b = true) ∧
+    (∀ f, Generated.C03.evmTickMember = some f → ∀ e x, f e x = (e || !x)) ∧
+    (∀ b, Generated.C03.evmTickArg = some b → b = true) := by
+  refine ⟨?_, ?_, ?_⟩
+  · intro b hb; unfold Generated.C03.evmTickWhole at hb; cases hb; all_goals rfl
+  · intro f hf; unfold Generated.C03.evmTickMember at hf; cases hf
+    all_goals (intro e x; cases e <;> cases x <;> rfl)
+  · intro b hb; unfold Generated.C03.evmTickArg at hb; cases hb; all_goals rfl
 
-/-- BTC: the source's executable-status predicate is the model's `canExec` -/
-theorem gen_btc_canExec (v : Status) : Generated.C03.btcCanExec (statusCode v) = canExec v := by
-  cases v <;> decide
+theorem gen_tick_sub :
+    (∀ b, Generated.C03.subTickWhole = some b → b = true) ∧
+    (∀ f, Generated.C03.subTickMember = some f → ∀ e x, f e x = (e || !x)) ∧
+    (∀ b, Generated.C03.subTickArg = some b → b = true) := by
+  refine ⟨?_, ?_, ?_⟩
+  · intro b hb; unfold Generated.C03.subTickWhole at hb; cases hb; all_goals rfl
+  · intro f hf; unfold Generated.C03.subTickMember at hf; cases hf
+    all_goals (intro e x; cases e <;> cases x <;> rfl)
+  · intro b hb; unfold Generated.C03.subTickArg at hb; cases hb; all_goals rfl
+
+/-- BTC: the source's executable-status decision is the model's `canExec` -/
+theorem gen_btc_canExec :
+    ∀ f, Generated.C03.btcCanExec = some f → ∀ v : Status, f (statusCode v) = canExec v := by
+  intro f hf
+  unfold Generated.C03.btcCanExec at hf
+  cases hf
+  all_goals (intro v; cases v <;> decide)
 
 end Sygma.C03
